@@ -10,5 +10,5 @@ export VERIF_SCRATCH="$WORK/scratch"
 trap 'rm -rf "$WORK"' EXIT
 mkdir -p "$WORK"
 "$HERE/mc/build.sh" "$WORK" || { echo "check.sh: build failed (internal error, not a verdict)"; exit 2; }
-VERIF_DIR="$HERE" "$WORK/vcheck" check "$ID" "$TIER" "$@"
+VERIF_KNOWN="$HERE/known_findings.json" VERIF_DIR="${VERIF_OUT:-$HERE}" "$WORK/vcheck" check "$ID" "$TIER" "$@"
 exit $?
